@@ -48,10 +48,6 @@ def _phase1(task):
     other variants from the measured extents."""
     seed, n_inc, profile = task
     case, rng = gen08.gen_case(seed, profile)
-    for st in case["steps"]:
-        fl = st.get("opts", {}).get("filters")
-        if fl:
-            st["opts"]["filters"] = [d for d in fl if not (isinstance(d, dict) and d.get("cls") == "DottedCircleFilter")]
     canon_var = gen08.canonical_variant()
     canon, extents, stats = gen08.run_variant(case, canon_var)
     variants = [canon_var]
